@@ -1079,5 +1079,12 @@ func c03MakeCorpus() [][]string {
 			c03Case(st, "limit", "query", "boolean", "", "-", "", "-", false, false, "-", "-", "limit", []string{"banana"}),
 		)
 	}
+	// a correction of the model (thorough sweep): uniqueItems compares numbers by value — -0 and an underflow to 0
+	// are the same item (422), NaN equals nothing
+	c03Corpus = append(c03Corpus,
+		[]string{"B", proto.B("x-request-id"), "header", "array", "-", "number", proto.B("l"), "csv", "0", "0", "-", "unique", proto.B("x-request-id"), proto.B("-0,1e-999")},
+		[]string{"B", proto.B("x-request-id"), "header", "array", "-", "number", proto.B("l"), "csv", "0", "0", "-", "unique", proto.B("x-request-id"), proto.B("0,-0.0")},
+		[]string{"B", proto.B("x-request-id"), "query", "array", "-", "number", proto.B("l"), "csv", "0", "0", "-", "unique", proto.B("x-request-id"), proto.B("nan,NaN")},
+	)
 	return append(append(c03Corpus, c03CorpusX()...), c03CorpusMulti()...)
 }
